@@ -107,6 +107,12 @@ SUITES["race"] = dict(
     batches={"quick": 8, "thorough": 16}, timeout={"quick": 600, "thorough": 3000},
 )
 
+SUITES["sched"] = dict(
+    test="TestSched", coq_module="Cases.SchedCase", case_type="sd_case", eval="eval_sd_case", binary="harness.sched.test",
+    cols=["diff_obs", "diff_trace", "mon_sched_prop", "mon_sched_finished", "nt_sched"],
+    batches={"quick": 8, "thorough": 16}, timeout={"quick": 600, "thorough": 3000},
+)
+
 PROPS = {
     "C09": dict(
         props_file="Props/C09.v",
@@ -135,8 +141,11 @@ PROPS["C07"] = dict(
     props_file="Props/C07.v",
     suites=[dict(suite="breaker", corr=["diff"], monitors=["mon_block", "mon_trials", "mon_trip", "mon_close", "mon_reopen"],
                  classifiers={}, nontrivial="nt_c07"),
-            dict(suite="lbseq", corr=["diff_begin"], monitors=["mon_c07_lb"], classifiers={}, nontrivial="nt_c07")],
-    rule="breaker histories under virtual time: overlapping Execute calls (begin/end separately), outcomes ok/err/panic, "
+            dict(suite="lbseq", corr=["diff_begin"], monitors=["mon_c07_lb"], classifiers={}, nontrivial="nt_c07"),
+            dict(suite="sched", corr=["diff_obs", "diff_trace"], monitors=["mon_sched_prop", "mon_sched_finished"], classifiers={},
+                 nontrivial="nt_sched", filter=lambda c: c["repl"].get("scenario") == 2)],
+    rule="sched: every interleaving of the critical sections of 2 Execute calls (and 60 sampled ones of 3) at the open -> half-open "
+         "boundary with max_requests 1 and 2, replayed on the yield-instrumented real breaker; breaker histories under virtual time: overlapping Execute calls (begin/end separately), outcomes ok/err/panic, "
          "gaps on interval/timeout boundaries +-1ns, thresholds and max_requests in 1..3; non-trivial = the history reaches OPEN; "
          "distinct = by hash of the full case term",
     level_text="Theorems over the breaker model for all configurations and all histories of overlapping requests: reachable-state "
@@ -145,7 +154,8 @@ PROPS["C07"] = dict(
                "Tied to circuitbreaker.go by running the same histories on the real breaker under virtual time (return value "
                "class, whether the function ran, State() after every op) and evaluating model and trace monitors in the Coq kernel.",
     level_note="Trusted: Coq kernel, harness, hand model of circuitbreaker.go. Requests overlap at the granularity of "
-               "admission/completion; interleavings inside beforeRequest/Execute critical sections are a separate step-level claim.",
+               "admission/completion; interleavings of the critical sections are covered by the step-level model (Model/Conc.v) and schedule "
+               "replay for the half-open admission, not for the other paths.",
     trusted_base=["model Model/Breaker.v of internal/circuitbreaker/circuitbreaker.go (hand-written; tied by the breaker suite)"],
     assumptions=["virtual time is non-decreasing", "uint32 counter overflow out of scope", "sync.RWMutex gives mutual exclusion"],
 )
@@ -189,7 +199,9 @@ PROPS["C06"] = dict(
 PROPS["C05"] = dict(
     props_file="Props/C05.v",
     suites=[dict(suite="strategy", corr=["diff"], monitors=["mon_rr", "mon_wrr_exact", "mon_wrr_bound", "mon_lc"],
-                 classifiers={"wrr-stale-after-removal": "cls_wrr_removed"}, nontrivial="nt_c05")],
+                 classifiers={"wrr-stale-after-removal": "cls_wrr_removed"}, nontrivial="nt_c05"),
+            # "weights below 1 count as 1" on every path a backend can be added by (configuration and admin API)
+            dict(suite="lbseq", corr=["diff_admin"], monitors=["mon_c11"], classifiers={}, nontrivial="nt_c11")],
     rule="real RoundRobin / WeightedRoundRobin / LeastConnections strategy objects: pools 1..8, weights 1..6, stretches of picks "
          "separated by add / remove / flag changes, in-flight counts 0..3, concurrent pickers (2..64 goroutines, 6720 picks) for the "
          "exact round-robin counts; non-trivial = n >= 2 and (WRR) unequal weights or a preceding membership/health event, "
@@ -231,8 +243,11 @@ PROPS["C04"] = dict(
     props_file="Props/C04.v",
     suites=[dict(suite="lbseq", corr=["diff_begin", "diff_admin"], monitors=["mon_c04_list", "mon_c04_only_after", "mon_c04_mirror", "mon_c02_disp", "mon_c02_503"],
                  classifiers={}, nontrivial="nt_c04"),
-            dict(suite="probe", corr=["diff"], monitors=[], classifiers={}, nontrivial="nt_c04")],
-    rule="probe suite: the real balancer with active checks under virtual time (1-4 backends, intervals 5/10/30 s, probe timeouts, windows "
+            dict(suite="probe", corr=["diff"], monitors=[], classifiers={}, nontrivial="nt_c04"),
+            dict(suite="sched", corr=["diff_obs", "diff_trace"], monitors=["mon_sched_prop", "mon_sched_finished"], classifiers={},
+                 nontrivial="nt_sched", filter=lambda c: c["repl"].get("scenario") == 1)],
+    rule="sched: every interleaving of the critical sections of 1-2 lazy-expiry checks (IsBackendHealthy) and 1-2 fresh ejections "
+         "(MarkBackendUnhealthy) on a backend whose window has just elapsed, replayed on the yield-instrumented real code; probe suite: the real balancer with active checks under virtual time (1-4 backends, intervals 5/10/30 s, probe timeouts, windows "
          "0..60 s, per-backend scripted probe results ok / 500 / transport error / no answer, gaps on interval / timeout / window +-1 ns): "
          "which backends each tick probes and which backends then receive traffic; lbseq: "
          "balancer histories with failed (5xx / unreachable) and good responses per backend, thresholds 1..3, windows 1/5/30 s straddled "
@@ -248,7 +263,9 @@ PROPS["C11"] = dict(
     props_file="Props/C11.v",
     suites=[dict(suite="lbseq", corr=["diff_admin", "diff_begin"], monitors=["mon_c11", "mon_c02_disp"],
                  classifiers={}, nontrivial="nt_c11"),
-            dict(suite="admin", corr=["diff"], monitors=["mon_c11_admin"], classifiers={}, nontrivial="nt_c10")],
+            dict(suite="admin", corr=["diff"], monitors=["mon_c11_admin"], classifiers={}, nontrivial="nt_c10"),
+            dict(suite="sched", corr=["diff_obs", "diff_trace"], monitors=["mon_sched_prop", "mon_sched_finished"], classifiers={},
+                 nontrivial="nt_sched", filter=lambda c: c["repl"].get("scenario") == 3)],
     rule="balancer histories with add (valid / unparsable address / duplicate name / weight 0..4), remove (present / absent names), "
          "set_strategy (5 valid + invalid names) interleaved with requests in flight, List before and after every admin operation; "
          "non-trivial = an admin op fails, repeats a name, removes an absent name or overlaps traffic; distinct = by case hash",
@@ -257,7 +274,9 @@ PROPS["C11"] = dict(
                "with weights, health and in-flight counts; the conservation law survives every admin step (requests in flight complete "
                "and stay accounted). Admin operations are single atomic steps of the model (the balancer lock spans them), so every "
                "interleaving with Begin/End is a history. Tie: lbseq; the HTTP admin API itself is decided under C10.",
-    level_note=_LB_NOTE + " Linearizability under truly concurrent admin actors rests on the RWMutex spanning each operation (not explored at step level here).",
+    level_note=_LB_NOTE + " Atomicity of the admin operations against each other is checked by schedule replay: SetStrategy / AddBackend / "
+               "RemoveBackend are each one critical section (an extra yield point = a split section is a correspondence failure, and the lost "
+               "update it allows is looked for over all interleavings).",
     trusted_base=_LB_TRUST, assumptions=[],
 )
 PROPS["C13"] = dict(
